@@ -61,11 +61,30 @@ pub fn lambert_w0(x: f64) -> f64 {
     0.5 * (lo + hi)
 }
 
+thread_local! {
+    /// strict mode: an approximate operand makes the result unspecified (approximate values are only
+    /// trustworthy one level deep: cos(100!) is garbage). Lenient mode propagates them (C15 restriction checks).
+    static STRICT: std::cell::Cell<bool> = std::cell::Cell::new(true);
+}
+
+fn strict() -> bool {
+    STRICT.with(|s| s.get())
+}
+
+/// Lenient evaluation: approximate values flow through further operations (used only to decide restrictions).
+pub fn eval_lenient(e: &E, ph: f64) -> RF {
+    STRICT.with(|s| s.set(false));
+    let r = eval(e, ph);
+    STRICT.with(|s| s.set(true));
+    r
+}
+
 fn combine(a: RF, b: RF, f: impl Fn(f64, f64) -> f64) -> RF {
     match (a, b) {
         (RF::Err, _) | (_, RF::Err) => RF::Err,
         (RF::Unspec(w), _) | (_, RF::Unspec(w)) => RF::Unspec(w),
         (RF::Exact(x), RF::Exact(y)) => RF::Exact(f(x, y)),
+        _ if strict() => RF::Unspec("approximate operand"),
         (x, y) => RF::Approx(f(x.value().unwrap(), y.value().unwrap())),
     }
 }
@@ -75,6 +94,7 @@ fn map1(a: RF, exact: bool, f: impl Fn(f64) -> f64) -> RF {
         RF::Err => RF::Err,
         RF::Unspec(w) => RF::Unspec(w),
         RF::Exact(x) if exact => RF::Exact(f(x)),
+        RF::Approx(_) if strict() => RF::Unspec("approximate operand"),
         x => RF::Approx(f(x.value().unwrap())),
     }
 }
@@ -140,6 +160,7 @@ pub fn eval(e: &E, ph: f64) -> RF {
             RF::Err => RF::Err,
             RF::Unspec(w) => RF::Unspec(w),
             RF::Exact(x) => factorial(x),
+            RF::Approx(_) if strict() => RF::Unspec("approximate operand"),
             RF::Approx(x) => match factorial(x) {
                 RF::Exact(v) => RF::Approx(v),
                 o => o,
@@ -155,6 +176,9 @@ pub fn eval(e: &E, ph: f64) -> RF {
             }
             if let Some(RF::Unspec(w)) = vs.iter().find(|v| matches!(v, RF::Unspec(_))) {
                 return RF::Unspec(w);
+            }
+            if strict() && vs.iter().any(|v| matches!(v, RF::Approx(_))) {
+                return RF::Unspec("approximate operand");
             }
             let one = |exact: bool, f: fn(f64) -> f64| map1(vs[0], exact, f);
             match canon {
